@@ -144,12 +144,23 @@ class Result:
 
 def discharge_one(ob, text, workdir, timeout, second_opinion=False, slice_texts=()):
     # relevance slices first (fewer hypotheses: faster, and sound); the full query last
-    if ob.expect == 'unsat':
+    if ob.expect == 'unsat' and slice_texts:
+        # 1. the full query with a short budget (most obligations close in well under a second)
+        r0 = _discharge_text(ob, text, workdir, min(6, timeout), second_opinion, only_first=not second_opinion)
+        if r0.verdict in ('discharged', 'refuted', 'solver-disagreement'):
+            return r0
+        spent = r0.seconds
+        # 2. relevance slices (fewer hypotheses: faster, and sound)
         for k, stext in enumerate(slice_texts):
-            rs = _discharge_text(ob, stext, workdir, max(5, timeout // 4), False, only_first=True)
+            rs = _discharge_text(ob, stext, workdir, max(5, timeout // 3), False, only_first=True)
+            spent += rs.seconds
             if rs.verdict == 'discharged':
                 rs.solver = '%s (relevance slice %d)' % (rs.solver, k + 1)
+                rs.seconds = spent
                 return rs
+        r1 = _discharge_text(ob, text, workdir, timeout, second_opinion)
+        r1.seconds += spent
+        return r1
     return _discharge_text(ob, text, workdir, timeout, second_opinion)
 
 
